@@ -5,6 +5,7 @@ sys.path.insert(0, "/verif")
 os.environ.setdefault("AIOHTTP_NO_EXTENSIONS", "1")
 checks = []
 claimed = set()
+REG = set(json.load(open("/verif/tools/registered.json")))  # monitors the lead has reviewed and run silent
 for f in sorted(glob.glob("/verif/props/c[0-9][0-9]_*.py")):
     import ast
     tree = ast.parse(open(f).read())
@@ -17,7 +18,7 @@ for f in sorted(glob.glob("/verif/props/c[0-9][0-9]_*.py")):
                 pass
     const = consts.get
     pid = const("ID")
-    if const("REGISTERED") is False:
+    if pid not in REG:
         continue
     claimed.add(pid)
     checks.append({
